@@ -14,6 +14,17 @@
 #include <utility>
 #include <vector>
 
+#ifdef _WIN32
+#ifndef NOMINMAX
+#define NOMINMAX
+#endif
+#include <winsock2.h>
+#include <ws2tcpip.h>
+#else
+#include <arpa/inet.h>
+#include <netinet/in.h>
+#endif
+
 namespace ephemeralnet::network {
 namespace {
 
@@ -69,7 +80,7 @@ bool is_private_or_reserved_ipv4(const std::array<std::uint8_t, 4>& ip) {
     if (ip[0] == 192 && ip[1] == 0 && ip[2] == 2) return true;     // TEST-NET-1
     if (ip[0] == 198 && ip[1] == 51 && ip[2] == 100) return true;  // TEST-NET-2
     if (ip[0] == 203 && ip[1] == 0 && ip[2] == 113) return true;   // TEST-NET-3
-    if (ip[0] == 198 && ip[1] == 18) return true;                  // Benchmarking
+    if (ip[0] == 198 && (ip[1] == 18 || ip[1] == 19)) return true; // Benchmarking (198.18.0.0/15)
     if (ip[0] >= 224) return true;                                 // Multicast/reserved
     return false;
 }
@@ -97,6 +108,18 @@ bool is_private_or_reserved_ipv6(const std::string& host) {
     }
     if (normalized == "::" || normalized == "::1") {
         return true;
+    }
+    in6_addr parsed{};
+    if (inet_pton(AF_INET6, normalized.c_str(), &parsed) == 1) {
+        const auto* bytes = reinterpret_cast<const std::uint8_t*>(&parsed);
+        const bool leading_zeros = std::all_of(bytes, bytes + 10, [](std::uint8_t value) { return value == 0; });
+        if (leading_zeros && bytes[10] == 0xFF && bytes[11] == 0xFF) {
+            // IPv4-mapped (::ffff:a.b.c.d): judge the embedded IPv4 address.
+            return is_private_or_reserved_ipv4({bytes[12], bytes[13], bytes[14], bytes[15]});
+        }
+        if (std::all_of(bytes, bytes + 15, [](std::uint8_t value) { return value == 0; }) && bytes[15] <= 1) {
+            return true;  // :: and ::1 in any spelling
+        }
     }
     if (normalized.rfind("fc", 0) == 0 || normalized.rfind("fd", 0) == 0) {
         return true;  // Unique local addresses
